@@ -36,7 +36,7 @@ static int text_fallback(int rc, MPT_INTERFACE(config) *cfg, const MPT_STRUCT(pa
 
 const char *vf_name = "c10_global";
 
-#define MAXNAMES 6
+#define MAXNAMES 8
 #define MAXDEPTH 4
 #define MAXU     96
 #define MAXVAL   320
@@ -101,12 +101,22 @@ static const char *show(const struct entry *x)
 	return d;
 }
 
+/* element names whose stored length equals the inline capacity exactly, per level */
+static void count_capacity_levels(const struct entry *x)
+{
+	static const char *lv[MAXDEPTH] = { "state:capacity-name-level1", "state:capacity-name-level2", "state:capacity-name-level3", "state:capacity-name-level4" };
+	for (int k = 0; k < x->n; k++) {
+		size_t l = namelen[x->e[k]];
+		if (l == 19 || l == 83 || l == 211) vf_count(lv[k], 1);
+	}
+}
 /* --------------------------------------------------------------- model ops */
 static void m_set(int i, const char *val, size_t vlen)
 {
 	for (int j = 0; j < nu; j++) if (is_prefix(&U[j], &U[i])) U[j].exists = 1;
 	U[i].hasval = 1; U[i].vlen = vlen;
 	memcpy(U[i].val, val, vlen + 1);
+	count_capacity_levels(&U[i]);
 }
 static void m_remove(int i, int self)
 {
@@ -253,21 +263,25 @@ uint64_t vf_cases(void) { return vf_thorough ? 40000 : 3000; }
 
 void vf_case(uint64_t idx, vf_rng *r)
 {
-	static const size_t nl[] = { 1, 1, 2, 3, 1, 2 };
+	static const size_t nl[] = { 1, 1, 2, 3, 1, 2, 2, 3 };
+	/* lengths around the inline name capacity of the elements (text + terminator == capacity) */
+	static const size_t bl[13] = { 18, 19, 19, 20, 82, 83, 83, 84, 210, 211, 211, 212, 11 };
 	int sets = 0, removes = 0, overw = 0, viewops = 0, i;
 	char val[MAXVAL];
 	(void) idx;
 	/* names: no separator characters, no '=', distinct */
-	nnames = 4 + (int) vf_below(r, 3);
+	nnames = 5 + (int) vf_below(r, 4);
 	for (i = 0; i < nnames; i++) {
 		size_t l = nl[i];
 		if (i == 3 && vf_chance(r, 1, 2)) l = 254 + vf_below(r, 4);
 		if (i == 4 && vf_chance(r, 1, 2)) l = 0;
+		if (i >= 5 || (i == 2 && vf_chance(r, 1, 2))) { l = bl[vf_below(r, 13)]; vf_count("universe:boundary-element", 1); }
+		if (l == 19 || l == 83 || l == 211) vf_count("universe:capacity-element", 1);
 		namelen[i] = l;
 		for (size_t k = 0; k < l; k++) names[i][k] = (char) ('a' + (k ? vf_below(r, 26) : (uint32_t) i));
 		names[i][l] = 0;
 		vf_fp(names[i], l);
-		if (l > 3) vf_count("universe:long-element", 1);
+		if (l > 250) vf_count("universe:long-element", 1);
 		if (!l) vf_count("universe:empty-element", 1);
 	}
 	/* universe: paths with shared prefixes, prefix-of-another, repeated elements */
@@ -403,6 +417,7 @@ void vf_case(uint64_t idx, vf_rng *r)
 			VF_CHECK(MPT_metatype_convert(v->mt, MPT_ENUM(TypeConfigPtr), &v->cfg) >= 0 && v->cfg, "model:view:no-config", "%s: no config interface", what);
 			v->base = t;
 			nviews++;
+			for (int q = 0; q < x->n; q++) { size_t l = namelen[x->e[q]]; if (l == 19 || l == 83 || l == 211) { vf_count("state:view-base-capacity-name", 1); break; } }
 		}
 		else if (k < 92 && nviews) {
 			/* assign / remove relative to a view */
@@ -431,6 +446,7 @@ void vf_case(uint64_t idx, vf_rng *r)
 				} else {
 					VF_CHECK(rc >= 0, "model:view-assign:refused", "%s returned %d", what, rc);
 					m_set(t, val, vl);
+					for (int q = b->n; q < x->n; q++) { size_t l = namelen[x->e[q]]; if (l == 19 || l == 83 || l == 211) { vf_count("view:assign-capacity-name", 1); break; } }
 					if (vl >= LONGVAL) vf_count("outcome:long-value-stored", 1);
 					sets++;
 				}
